@@ -23,19 +23,21 @@ CONSTANTS Callers,      \* run-now requests
           Cancellers,   \* cancel requests
           Periodic,     \* BOOLEAN: periodic job (loops, stays in the table) or one-off
           MaxRuns,      \* bound on job function invocations explored (periodic)
+          DeleteByName, \* FALSE = intended protocol (a goroutine removes only its own table entry).  TRUE = named
+                        \* deviation of the pinned code: `delete(s.jobs, name)` also removes a successor's entry
           DropOnClaim   \* FALSE = intended protocol.  TRUE adds the named deviation GTDrop: the
                         \* pinned code's timer branch leaving when it sees the job claimed
 
-VARIABLES inTable, active, finalised, closed, runCh, cancelCh, lock,
+VARIABLES inTable, bInTable, bLive, active, finalised, closed, runCh, cancelCh, lock,
           gpc, runs, running, timerExpired, ctxDone, panicked,
           cpc, cres, kpc, kres,
           took          \* history: which select branch ended the goroutine ("none","ctx","cancel","nomore")
 
-vars == <<inTable, active, finalised, closed, runCh, cancelCh, lock, gpc, runs, running,
+vars == <<inTable, bInTable, bLive, active, finalised, closed, runCh, cancelCh, lock, gpc, runs, running,
           timerExpired, ctxDone, panicked, cpc, cres, kpc, kres, took>>
 
 Init ==
-    /\ inTable = TRUE /\ active = FALSE /\ finalised = FALSE /\ closed = FALSE
+    /\ inTable = TRUE /\ bInTable = FALSE /\ bLive = FALSE /\ active = FALSE /\ finalised = FALSE /\ closed = FALSE
     /\ runCh = 0 /\ cancelCh = 0 /\ lock = "free"
     /\ gpc = "select" /\ runs = 0 /\ running = 0
     /\ timerExpired = FALSE /\ ctxDone = FALSE /\ panicked = FALSE
@@ -46,9 +48,15 @@ Init ==
 -----------------------------------------------------------------------------
 (* environment *)
 TimerExpire == ~timerExpired /\ timerExpired' = TRUE
-               /\ UNCHANGED <<inTable, active, finalised, closed, runCh, cancelCh, lock, gpc, runs, running, ctxDone, panicked, cpc, cres, kpc, kres, took>>
+               /\ UNCHANGED <<inTable, bInTable, bLive, active, finalised, closed, runCh, cancelCh, lock, gpc, runs, running, ctxDone, panicked, cpc, cres, kpc, kres, took>>
 CtxCancel == ~ctxDone /\ ctxDone' = TRUE
-             /\ UNCHANGED <<inTable, active, finalised, closed, runCh, cancelCh, lock, gpc, runs, running, timerExpired, panicked, cpc, cres, kpc, kres, took>>
+             /\ UNCHANGED <<inTable, bInTable, bLive, active, finalised, closed, runCh, cancelCh, lock, gpc, runs, running, timerExpired, panicked, cpc, cres, kpc, kres, took>>
+
+\* The name is scheduled again (ScheduleJob with the same name) once it is free: a successor job
+\* "b" (abstract: only its table entry is modelled) now owns the name.  A name that is taken is refused.
+Resched == /\ ~inTable /\ ~bInTable /\ ~bLive
+           /\ bInTable' = TRUE /\ bLive' = TRUE
+           /\ UNCHANGED <<inTable, active, finalised, closed, runCh, cancelCh, lock, gpc, runs, running, timerExpired, ctxDone, panicked, cpc, cres, kpc, kres, took>>
 
 -----------------------------------------------------------------------------
 (* run-now callers *)
@@ -58,7 +66,13 @@ RLookup(c) ==
        THEN /\ inTable' = (IF Periodic THEN TRUE ELSE FALSE)
             /\ cpc' = [cpc EXCEPT ![c] = "p"]
             /\ cres' = cres
-       ELSE /\ inTable' = inTable
+            /\ UNCHANGED <<bInTable, bLive>>
+       ELSE IF bInTable
+       THEN \* the name now belongs to the successor job: it is started and leaves the table
+            /\ bInTable' = FALSE /\ bLive' = FALSE /\ inTable' = inTable
+            /\ cpc' = [cpc EXCEPT ![c] = "done"]
+            /\ cres' = [cres EXCEPT ![c] = "okb"]
+       ELSE /\ UNCHANGED <<inTable, bInTable, bLive>>
             /\ cpc' = [cpc EXCEPT ![c] = "done"]
             /\ cres' = [cres EXCEPT ![c] = "nosuchjob"]
     /\ UNCHANGED <<active, finalised, closed, runCh, cancelCh, lock, gpc, runs, running, timerExpired, ctxDone, panicked, kpc, kres, took>>
@@ -73,7 +87,7 @@ RCheck(c) ==
             /\ UNCHANGED <<active, lock>>
        ELSE /\ active' = TRUE /\ lock' = c
             /\ cpc' = [cpc EXCEPT ![c] = "h"] /\ cres' = cres
-    /\ UNCHANGED <<inTable, finalised, closed, runCh, cancelCh, gpc, runs, running, timerExpired, ctxDone, panicked, kpc, kres, took>>
+    /\ UNCHANGED <<inTable, bInTable, bLive, finalised, closed, runCh, cancelCh, gpc, runs, running, timerExpired, ctxDone, panicked, kpc, kres, took>>
 
 \* a send on a full 1-buffered channel blocks (the action is disabled); on a closed channel it panics
 RSend(c) ==
@@ -82,7 +96,7 @@ RSend(c) ==
        \/ ~closed /\ runCh = 0 /\ runCh' = 1 /\ panicked' = panicked
     /\ lock' = "free"
     /\ cpc' = [cpc EXCEPT ![c] = "done"] /\ cres' = [cres EXCEPT ![c] = "ok"]
-    /\ UNCHANGED <<inTable, active, finalised, closed, cancelCh, gpc, runs, running, timerExpired, ctxDone, kpc, kres, took>>
+    /\ UNCHANGED <<inTable, bInTable, bLive, active, finalised, closed, cancelCh, gpc, runs, running, timerExpired, ctxDone, kpc, kres, took>>
 
 -----------------------------------------------------------------------------
 (* cancellers *)
@@ -90,7 +104,12 @@ KLookup(k) ==
     /\ kpc[k] = "idle"
     /\ IF inTable
        THEN /\ inTable' = FALSE /\ kpc' = [kpc EXCEPT ![k] = "p"] /\ kres' = kres
-       ELSE /\ inTable' = inTable /\ kpc' = [kpc EXCEPT ![k] = "done"]
+            /\ UNCHANGED <<bInTable, bLive>>
+       ELSE IF bInTable
+       THEN \* the successor job is cancelled
+            /\ bInTable' = FALSE /\ bLive' = FALSE /\ inTable' = inTable
+            /\ kpc' = [kpc EXCEPT ![k] = "done"] /\ kres' = [kres EXCEPT ![k] = "okb"]
+       ELSE /\ UNCHANGED <<inTable, bInTable, bLive>> /\ kpc' = [kpc EXCEPT ![k] = "done"]
             /\ kres' = [kres EXCEPT ![k] = "nosuchjob"]
     /\ UNCHANGED <<active, finalised, closed, runCh, cancelCh, lock, gpc, runs, running, timerExpired, ctxDone, panicked, cpc, cres, took>>
 
@@ -102,7 +121,7 @@ KSignal(k) ==
             /\ \/ closed /\ panicked' = TRUE /\ cancelCh' = cancelCh
                \/ ~closed /\ cancelCh = 0 /\ cancelCh' = 1 /\ panicked' = panicked
     /\ kpc' = [kpc EXCEPT ![k] = "done"] /\ kres' = [kres EXCEPT ![k] = "ok"]
-    /\ UNCHANGED <<inTable, active, closed, runCh, lock, gpc, runs, running, timerExpired, ctxDone, cpc, cres, took>>
+    /\ UNCHANGED <<inTable, bInTable, bLive, active, closed, runCh, lock, gpc, runs, running, timerExpired, ctxDone, cpc, cres, took>>
 
 -----------------------------------------------------------------------------
 (* the job goroutine *)
@@ -110,33 +129,34 @@ G(from, to) == gpc = from /\ gpc' = to
 
 \* Go's select: any ready case may be taken
 GSelCtx    == G("select", "c1") /\ ctxDone /\ took' = "ctx"
-              /\ UNCHANGED <<inTable, active, finalised, closed, runCh, cancelCh, lock, runs, running, timerExpired, ctxDone, panicked, cpc, cres, kpc, kres>>
+              /\ UNCHANGED <<inTable, bInTable, bLive, active, finalised, closed, runCh, cancelCh, lock, runs, running, timerExpired, ctxDone, panicked, cpc, cres, kpc, kres>>
 GSelCancel == G("select", "k1") /\ cancelCh = 1 /\ cancelCh' = 0 /\ took' = "cancel"
-              /\ UNCHANGED <<inTable, active, finalised, closed, runCh, lock, runs, running, timerExpired, ctxDone, panicked, cpc, cres, kpc, kres>>
+              /\ UNCHANGED <<inTable, bInTable, bLive, active, finalised, closed, runCh, lock, runs, running, timerExpired, ctxDone, panicked, cpc, cres, kpc, kres>>
 GSelRun    == G("select", "r1") /\ runCh = 1 /\ runCh' = 0
-              /\ UNCHANGED <<inTable, active, finalised, closed, cancelCh, lock, runs, running, timerExpired, ctxDone, panicked, cpc, cres, kpc, kres, took>>
+              /\ UNCHANGED <<inTable, bInTable, bLive, active, finalised, closed, cancelCh, lock, runs, running, timerExpired, ctxDone, panicked, cpc, cres, kpc, kres, took>>
 GSelTimer  == G("select", "t1") /\ timerExpired
-              /\ UNCHANGED <<inTable, active, finalised, closed, runCh, cancelCh, lock, runs, running, timerExpired, ctxDone, panicked, cpc, cres, kpc, kres, took>>
+              /\ UNCHANGED <<inTable, bInTable, bLive, active, finalised, closed, runCh, cancelCh, lock, runs, running, timerExpired, ctxDone, panicked, cpc, cres, kpc, kres, took>>
 
 \* parent context done: remove the name from the table, finalise
 GCtxDel == G("c1", "k1") /\ inTable' = FALSE
-           /\ UNCHANGED <<active, finalised, closed, runCh, cancelCh, lock, runs, running, timerExpired, ctxDone, panicked, cpc, cres, kpc, kres, took>>
+           /\ bInTable' = (IF DeleteByName THEN FALSE ELSE bInTable)
+               /\ UNCHANGED <<bLive, active, finalised, closed, runCh, cancelCh, lock, runs, running, timerExpired, ctxDone, panicked, cpc, cres, kpc, kres, took>>
 
 \* finaliseJob: stateLock section; closes both channels
 Finalise(from, to) ==
     /\ G(from, to) /\ lock = "free"
     /\ finalised' = TRUE /\ closed' = TRUE
-    /\ UNCHANGED <<inTable, active, runCh, cancelCh, lock, runs, running, timerExpired, ctxDone, panicked, cpc, cres, kpc, kres, took>>
+    /\ UNCHANGED <<inTable, bInTable, bLive, active, runCh, cancelCh, lock, runs, running, timerExpired, ctxDone, panicked, cpc, cres, kpc, kres, took>>
 
 \* the job function
 RunStart(from, to) == G(from, to) /\ runs' = runs + 1 /\ running' = running + 1
-    /\ UNCHANGED <<inTable, active, finalised, closed, runCh, cancelCh, lock, timerExpired, ctxDone, panicked, cpc, cres, kpc, kres, took>>
+    /\ UNCHANGED <<inTable, bInTable, bLive, active, finalised, closed, runCh, cancelCh, lock, timerExpired, ctxDone, panicked, cpc, cres, kpc, kres, took>>
 RunEnd(from, to) == G(from, to) /\ running' = running - 1
-    /\ UNCHANGED <<inTable, active, finalised, closed, runCh, cancelCh, lock, runs, timerExpired, ctxDone, panicked, cpc, cres, kpc, kres, took>>
+    /\ UNCHANGED <<inTable, bInTable, bLive, active, finalised, closed, runCh, cancelCh, lock, runs, timerExpired, ctxDone, panicked, cpc, cres, kpc, kres, took>>
 SetActive(from, to, v) == G(from, to) /\ active' = v
-    /\ UNCHANGED <<inTable, finalised, closed, runCh, cancelCh, lock, runs, running, timerExpired, ctxDone, panicked, cpc, cres, kpc, kres, took>>
+    /\ UNCHANGED <<inTable, bInTable, bLive, finalised, closed, runCh, cancelCh, lock, runs, running, timerExpired, ctxDone, panicked, cpc, cres, kpc, kres, took>>
 Skip(from, to) == G(from, to)
-    /\ UNCHANGED <<inTable, active, finalised, closed, runCh, cancelCh, lock, runs, running, timerExpired, ctxDone, panicked, cpc, cres, kpc, kres, took>>
+    /\ UNCHANGED <<inTable, bInTable, bLive, active, finalised, closed, runCh, cancelCh, lock, runs, running, timerExpired, ctxDone, panicked, cpc, cres, kpc, kres, took>>
 
 \* --- one-off job ---
 \* cancel branch / end of ctx branch
@@ -151,11 +171,12 @@ GTCheck    == gpc = "t1" /\ IF active THEN Skip("t1", IF Periodic THEN "p0" ELSE
                                       ELSE Skip("t1", IF Periodic THEN "t3" ELSE "t2")
 \* C02: the job was claimed by a run-now request whose signal is on its way: take it and run
 GTWait     == ~Periodic /\ G("tw", "r1") /\ runCh = 1 /\ runCh' = 0
-              /\ UNCHANGED <<inTable, active, finalised, closed, cancelCh, lock, runs, running, timerExpired, ctxDone, panicked, cpc, cres, kpc, kres, took>>
+              /\ UNCHANGED <<inTable, bInTable, bLive, active, finalised, closed, cancelCh, lock, runs, running, timerExpired, ctxDone, panicked, cpc, cres, kpc, kres, took>>
 \* named deviation (only with DropOnClaim): the timer branch exits, the claimed job never runs
 GTDrop     == ~Periodic /\ DropOnClaim /\ gpc = "t1" /\ active /\ Skip("t1", "done")
 GTDel      == ~Periodic /\ G("t2", "t3") /\ inTable' = FALSE
-              /\ UNCHANGED <<active, finalised, closed, runCh, cancelCh, lock, runs, running, timerExpired, ctxDone, panicked, cpc, cres, kpc, kres, took>>
+              /\ bInTable' = (IF DeleteByName THEN FALSE ELSE bInTable)
+               /\ UNCHANGED <<bLive, active, finalised, closed, runCh, cancelCh, lock, runs, running, timerExpired, ctxDone, panicked, cpc, cres, kpc, kres, took>>
 GTClaim    == SetActive("t3", "t4", TRUE)
 GTStart    == RunStart("t4", "t5")
 GTEnd      == RunEnd("t5", "t6")
@@ -167,16 +188,17 @@ GPKFinalise == Periodic /\ Finalise("k1", "done")
 GPRReset    == Periodic /\ SetActive("r3", "p0", FALSE)
 \* runtimeFunc: next instance (timer re-armed) or no more instances
 GPNext      == Periodic /\ G("p0", "select") /\ runs < MaxRuns /\ timerExpired' = FALSE
-               /\ UNCHANGED <<inTable, active, finalised, closed, runCh, cancelCh, lock, runs, running, ctxDone, panicked, cpc, cres, kpc, kres, took>>
+               /\ UNCHANGED <<inTable, bInTable, bLive, active, finalised, closed, runCh, cancelCh, lock, runs, running, ctxDone, panicked, cpc, cres, kpc, kres, took>>
 GPNoMore    == Periodic /\ G("p0", "k1") /\ inTable' = FALSE /\ took' = "nomore"
-               /\ UNCHANGED <<active, finalised, closed, runCh, cancelCh, lock, runs, running, timerExpired, ctxDone, panicked, cpc, cres, kpc, kres>>
+               /\ bInTable' = (IF DeleteByName THEN FALSE ELSE bInTable)
+               /\ UNCHANGED <<bLive, active, finalised, closed, runCh, cancelCh, lock, runs, running, timerExpired, ctxDone, panicked, cpc, cres, kpc, kres>>
 
 GNext == \/ GSelCtx \/ GSelCancel \/ GSelRun \/ GSelTimer \/ GCtxDel
          \/ GKFinalise \/ GRStart \/ GREnd \/ GRFinalise \/ GRReset
          \/ GTCheck \/ GTWait \/ GTDrop \/ GTDel \/ GTClaim \/ GTStart \/ GTEnd \/ GTReset \/ GTFinalise
          \/ GPKFinalise \/ GPRReset \/ GPNext \/ GPNoMore
 
-Next == \/ TimerExpire \/ CtxCancel
+Next == \/ TimerExpire \/ CtxCancel \/ Resched
         \/ \E c \in Callers : RLookup(c) \/ RCheck(c) \/ RSend(c)
         \/ \E k \in Cancellers : KLookup(k) \/ KSignal(k)
         \/ GNext
@@ -208,6 +230,11 @@ NotDropped == (~Periodic /\ gpc = "done" /\ took = "none") => runs = 1
 CancelBranchNoRun == (~Periodic /\ took \in {"ctx", "cancel"}) => runs = 0
 \* a finished job's name can be scheduled again
 NameReusable == gpc = "done" => ~inTable
+\* one name, one entry
+NameSlotUnique == ~(inTable /\ bInTable)
+\* a job scheduled under a re-used name stays reachable by that name until it is started or cancelled:
+\* the earlier job's goroutine only ever removes its own entry
+SuccessorReachable == bLive => bInTable
 \* nobody is left holding the lock
 LockFreeAtEnd == (gpc = "done" /\ \A c \in Callers : cpc[c] \in {"idle", "done"}) => lock = "free"
 
